@@ -59,7 +59,15 @@ def violation(text, root):
     # invented text: '(content missing)' may only stand in for a footnote whose content really is missing. When the text
     # has exactly one reference and exactly one block for a marker, the block's content belongs in that note.
     refs = Counter(re.findall(r'\{\{FOOTNOTE ([^ \n}]+)\}\}', text))
-    blocks = Counter(m.strip() for m in re.findall(r'^[ \t]*FOOTNOTE +([^ \n]+)[ \t]*$', text, re.M))
+    # a FOOTNOTE line is a block only if indented content follows it
+    blocks = Counter()
+    ls = text.replace('\t', '  ').split('\n')
+    for i, l in enumerate(ls):
+        m = re.match(r'^( *)FOOTNOTE +([^ \n]+) *$', l)
+        if m:
+            nxt = next((x for x in ls[i + 1:] if x.strip()), None)
+            if nxt is not None and len(nxt) - len(nxt.lstrip(' ')) > len(m.group(1)):
+                blocks[m.group(2)] += 1
 
     def notes_of(n, acc):
         if isinstance(n, str) or n[0] == 'meta':
